@@ -296,7 +296,7 @@ func genWal(r *hx.Rand, deep bool) *hx.Case {
 
 func (eng) Generate(mode, tier string, r *hx.Rand) []*hx.Case {
 	var cs []*hx.Case
-	nTab, nMid, nBig, nWal := 110, 8, 1, 170
+	nTab, nMid, nBig, nWal := 84, 5, 1, 130
 	if tier == "thorough" {
 		nTab, nMid, nBig, nWal = 900, 80, 4, 1500
 	}
